@@ -345,3 +345,22 @@ PROPS["C08"] = {
          "thorough": {"checks": 1200, "shards": 16, "timeout": 1700}},
     ],
 }
+
+
+PROPS["C18"] = {
+    "title": "P2P boundary: bounded framing, same-chain peers only, content-addressed blocks",
+    "level": "exploration",
+    "technique": "PBT (rapid): round trip of generated message sequences through one writer/reader pair, bounded-allocation + totality oracle on generated hostile byte streams (native fuzzing in the thorough tier), single-field mutation of handshake status messages against the real handshaker, forged-identifier block deliveries against a real chain service",
+    "level_text": ("(a) sequences of 1-6 messages (every sub-protocol id incl. unknown ones, payload sizes 0,1,47,48,49,1500,limit-1,limit,limit+1, zero / all-ones / random ids and original ids, arbitrary timestamps) written by one V030 writer and read back by one reader must be identical in every field; limit+1 is refused by the writer; streams truncated at a drawn offset, random bytes and headers announcing up to 2^32-1 bytes must yield an error without panic and without allocating more than the configured maximum; "
+                   "(b) the real V200 handshaker (inbound and outbound) accepts the matching status of a generated chain (chain id flags, version schedule, genesis, peer id) and refuses every status differing in one field (genesis bit/length, peer id, chain id version/magic/consensus/public/main-net/garbage, address, sender, best hash length, height of another fork version), answering GoAway; "
+                   "(c) blocks whose identifier field is not the digest of their header (identifier of another valid block, header or body altered) delivered before/after the genuine block to a real node: nothing is stored or indexed under an identifier that is not the digest of the stored header, and the genuine block is accepted afterwards."),
+    "level_note": "The payload limit is lowered through the package variable the code itself reads (p2pcommon.MaxPayloadLength), so limit+1 cases stay cheap. The v0.3.3 handshaker shares checkRemoteStatus logic and is exercised by the repository's own tests only. libp2p transport security is out of scope.",
+    "rule": ("a case = one generated sequence / stream / status / delivery order; non-trivial: (a) a sequence of >=2 messages or a payload > 1 KiB, a structured hostile stream; (b) a status differing in exactly one field; (c) a forged variant processed before the genuine block. Distinct by full description."),
+    "assumptions": ["bufio.Reader default buffer (4 KiB) is part of the allocation slack"],
+    "units": [
+        {"pkg": "p2p/v030", "links": {"../test": "p2p/test"}, "run": "^TestC18Framing$", "quick": {"checks": 1500, "shards": 3, "timeout": 300}, "thorough": {"checks": 40000, "shards": 6, "timeout": 1500}},
+        {"pkg": "p2p/v030", "links": {"../test": "p2p/test"}, "run": "^TestC18ReadBounded$", "quick": {"checks": 3000, "shards": 2, "timeout": 300}, "thorough": {"checks": 60000, "shards": 4, "timeout": 1500}},
+        {"pkg": "p2p/v200", "links": {"../test": "p2p/test"}, "run": "^TestC18Handshake$", "quick": {"checks": 1500, "shards": 3, "timeout": 300}, "thorough": {"checks": 40000, "shards": 6, "timeout": 1500}},
+        {"pkg": "verifx/tree", "run": "^TestC18BlockIdentity$", "quick": {"checks": 120, "shards": 6, "timeout": 400}, "thorough": {"checks": 3000, "shards": 12, "timeout": 1700}},
+    ],
+}
